@@ -135,10 +135,12 @@ def _globals():
 def py_fired(sites, ns, g):
     """the identifiers whose conditions the interpreter finds true, in source order; {"err": class} when it raises"""
     out = []
+    scope = dict(g)
+    scope.update(ns)        # one namespace: a generator expression does not see the `locals` of eval()
     for ident, codes in sites:
         fire = True
         for code, neg in codes:
-            t = bool(eval(code, g, ns))
+            t = bool(eval(code, scope))
             if neg:
                 t = not t
             if not t:
